@@ -5,7 +5,7 @@
 From Dns Require Import Gen.Layouts Gen.Registry.
 From Dns Require Import Base.ListX Model.Msg Spec.NameSpec
   Proofs.EscapeProofs Proofs.NameWireProofs Proofs.NameRoundtripProofs
-  Proofs.LayoutProofs Proofs.RoundtripFieldProofs.
+  Proofs.LayoutProofs Proofs.DecodeFieldsProofs Proofs.RoundtripFieldProofs.
 From Coq Require Import Lia ZifyN ZifyNat ZifyBool.
 Open Scope list_scope.
 Open Scope N_scope.
@@ -458,7 +458,7 @@ Proof.
   split.
   { repeat constructor; cbn [fst snd field_canon].
     eexists. split; [reflexivity|]. exists [[104; 105; 34; 0]; []; [255; 92]].
-    split; [reflexivity|]. split; [discriminate|].
+    split; [reflexivity|].
     repeat constructor; cbn; lia. }
   split; [vm_compute; reflexivity|]. split; vm_compute; reflexivity.
 Qed.
@@ -504,4 +504,247 @@ Example full_buffer_quirk :
 Proof.
   split. { unfold rr_ok. repeat split; try reflexivity; cbn; lia. }
   split; [constructor|]. split; [vm_compute; reflexivity|]. split; vm_compute; reflexivity.
+Qed.
+
+(* ================================================================== *)
+(* wire -> value -> wire for field sequences and records *)
+Fixpoint conv_layout_ok (seen : list string) (ps : list pfield) : bool :=
+  match ps with
+  | [] => true
+  | (f, k) :: r => conv_kind k && negb (existsb (String.eqb f) seen) && conv_layout_ok (f :: seen) r
+  end.
+
+(* the octets of every field are plain, following the decoder through all the
+   statements of the layout *)
+Fixpoint plain_fields (ps : list pfield) (us : list ufield) (got : rdata) (msg : bytes) (off : N) : Prop :=
+  match ps, us with
+  | (f, k) :: ps', u :: us' =>
+    match unpack_field got (uf_kind u) msg off with
+    | Ok (vals, off') =>
+      plain_at k msg off off' /\ plain_fields ps' us' (got ++ combine (assigned u) vals) msg off'
+    | _ => False
+    end
+  | _, _ => True
+  end.
+
+Lemma assigned_conv u k : kind_agree k (uf_kind u) = true -> conv_kind k = true -> assigned u = [uf_name u].
+Proof. unfold assigned. destruct k; destruct (uf_kind u); cbn; try discriminate; reflexivity. Qed.
+
+Lemma conv_layout_fresh ps : forall seen f k, conv_layout_ok seen ps = true -> In (f, k) ps -> ~ In f seen.
+Proof.
+  induction ps as [|[f0 k0] ps IH]; intros seen f k H Hin; [destruct Hin|].
+  cbn [conv_layout_ok] in H. repeat (apply andb_prop in H; destruct H as [H ?]).
+  destruct Hin as [E|Hin].
+  - injection E as -> ->. apply existsb_eqb_notin. now destruct (existsb _ seen).
+  - intro Hs. eapply IH; [eassumption|exact Hin|right; exact Hs].
+Qed.
+
+Lemma fields_converse cap ps : forall us seen got msg off gotF off' out,
+  wfb msg -> sides_agree ps us = true -> conv_layout_ok seen ps = true -> off <= lenN msg ->
+  (forall g, ~ In g seen -> vget got g = None) ->
+  unpack_fields us got msg off = Ok (gotF, off') ->
+  plain_fields ps us got msg off ->
+  Forall (fun fk : pfield => vget gotF (fst fk) <> None) ps ->
+  lenN msg + 320 <= cap -> lenN out = off ->
+  off <= off' <= lenN msg /\ (exists ext, gotF = got ++ ext) /\
+  pack_fields gotF ps cap (st0 out) = Ok (st0 (out ++ take_at msg off (off' - off))).
+Proof.
+  induction ps as [|[f k] ps IH]; intros us seen got msg off gotF off' out Hw Hs Hl Hoff Hkeys Hun Hplain Hpres Hcap Ho.
+  - destruct us; [|discriminate]. cbn in Hun. injection Hun as <- <-. split; [lia|].
+    split; [exists []; now rewrite app_nil_r|]. cbn [pack_fields]. rewrite N.sub_diag.
+    unfold take_at, takeN. cbn. now rewrite app_nil_r.
+  - destruct us as [|u us]; [discriminate|]. cbn [sides_agree] in Hs.
+    apply andb_prop in Hs. destruct Hs as [Hs Hs']. apply andb_prop in Hs. destruct Hs as [Hname Hk].
+    apply String.eqb_eq in Hname.
+    cbn [conv_layout_ok] in Hl. apply andb_prop in Hl. destruct Hl as [Hl Hl'].
+    apply andb_prop in Hl. destruct Hl as [Hck Hfresh].
+    assert (Hnf : ~ In f seen). { apply existsb_eqb_notin. now destruct (existsb _ seen). }
+    cbn [unpack_fields] in Hun. cbn [plain_fields] in Hplain.
+    destruct (unpack_field got (uf_kind u) msg off) as [[vals o]| | |] eqn:Eu; try contradiction.
+    destruct Hplain as [Hpl Hplain]. cbn [bind fst snd] in Hun.
+    destruct (field_converse got k (uf_kind u) msg off vals o cap Hw Hck Hk Hoff Eu Hpl Hcap)
+      as [Hro [x [-> Hpack]]].
+    rewrite (assigned_conv u k Hk Hck), <- Hname in *. cbn [combine] in *.
+    assert (Hkeys' : forall g, ~ In g (f :: seen) -> vget (got ++ [(f, x)]) g = None).
+    { intros g Hg. rewrite vget_app, Hkeys by (intro; apply Hg; now right). cbn.
+      destruct (String.eqb_spec g f) as [->|]; [exfalso; apply Hg; now left|reflexivity]. }
+    assert (Hfx : forall ext, vget ((got ++ [(f, x)]) ++ ext) f = Some x).
+    { intro ext. rewrite !vget_app, (Hkeys f Hnf). cbn. now rewrite String.eqb_refl. }
+    pose proof (Forall_inv_tail Hpres) as Hpres'.
+    destruct (uf_exit u && (o =? lenN msg)) eqn:Hex.
+    + (* early return: nothing may be left to pack *)
+      injection Hun as <- <-.
+      assert (ps = []).
+      { destruct ps as [|[f' k'] ps']; [reflexivity|]. exfalso.
+        pose proof (Forall_inv Hpres') as Hp. cbn [fst] in Hp. apply Hp, Hkeys'.
+        eapply conv_layout_fresh; [exact Hl'|now left]. }
+      subst ps. split; [lia|]. split; [now exists [(f, x)]|].
+      cbn [pack_fields]. specialize (Hfx []). rewrite app_nil_r in Hfx.
+      rewrite (Hpack _ f out Hfx Ho). reflexivity.
+    + destruct (IH us (f :: seen) (got ++ [(f, x)]) msg o gotF off' (out ++ take_at msg off (o - off)))
+        as [Hr2 [[ext ->] Hp2]]; try assumption; try lia.
+      { rewrite lenN_app, lenN_take_at by lia. lia. }
+      split; [lia|]. split; [exists ([(f, x)] ++ ext); now rewrite app_assoc|].
+      cbn [pack_fields]. rewrite (Hpack _ f out (Hfx ext) Ho). cbn [bind].
+      rewrite Hp2. f_equal. f_equal. rewrite <- app_assoc. f_equal.
+      replace (off' - off) with ((o - off) + (off' - o)) by lia.
+      rewrite take_at_split by lia. f_equal. unfold take_at. f_equal. f_equal. lia.
+Qed.
+
+Lemma take_at_takeN (msg : bytes) m off n : off + n <= m -> take_at (takeN m msg) off n = take_at msg off n.
+Proof.
+  intro H. unfold take_at, takeN, dropN.
+  rewrite skipn_firstn_comm, firstn_firstn. f_equal. lia.
+Qed.
+Lemma wfb_takeN msg m : wfb msg -> wfb (takeN m msg).
+Proof. intro H. apply Forall_firstn', H. Qed.
+
+Local Opaque un_go.
+Local Strategy opaque [unpack_name_fuel un_go].
+
+(* a record read by UnpackRR from plain octets packs to those octets again *)
+Theorem rr_converse msg off r off' L ls cap out :
+  wfb msg -> unpack_rr msg off = Ok (r, off') ->
+  find_layout layouts (rr_kind r) = Some L -> conv_layout_ok [] (tl_pack L) = true ->
+  rr_rdlength r <> 0 ->
+  valid_wire ls = true -> off + lenN (wire_name ls) <= lenN msg ->
+  take_at msg off (lenN (wire_name ls)) = wire_name ls ->
+  plain_fields (tl_pack L) (tl_unpack L) [] (takeN off' msg) (off + lenN (wire_name ls) + 10) ->
+  Forall (fun fk : pfield => vget (rr_data r) (fst fk) <> None) (tl_pack L) ->
+  lenN msg + 320 <= cap -> lenN out = off ->
+  off < off' <= lenN msg /\
+  pack_rr r cap false (st0 out) = Ok (st0 (out ++ take_at msg off (off' - off))).
+Proof.
+  intros Hw H Hfind Hlok Hrdl Hls Hwl Ewire Hplain Hpres Hcap Ho.
+  pose proof (wire_name_len_pos ls) as Hwn1.
+  unfold unpack_rr in H. inv_bind H. destruct a as [[hd off1] tmsg].
+  unfold unpack_rr_header in Ha.
+  destruct (off =? lenN msg) eqn:E0; [lia|].
+  assert (Hun : unpack_name msg off = Ok (show_name ls, off + lenN (wire_name ls))).
+  { assert (Emsg : msg = takeN off msg ++ wire_name ls ++ dropN (off + lenN (wire_name ls)) msg).
+    { rewrite <- Ewire at 1. rewrite app_assoc, <- takeN_split by lia. symmetry. apply firstn_skipn. }
+    set (pre := takeN off msg) in *. set (post := dropN (off + lenN (wire_name ls)) msg) in *.
+    assert (Eoff : lenN pre = off) by (apply lenN_takeN'; lia).
+    rewrite Emsg, <- Eoff. apply unpack_name_exact, Hls. }
+  rewrite Hun in Ha. cbn [bind fst snd] in Ha.
+  set (o1 := off + lenN (wire_name ls)) in *.
+  unfold unpack_fixed in Ha.
+  destruct (lenN msg <? o1 + 2) eqn:E1; [discriminate|]. cbn [bind fst snd] in Ha.
+  destruct (lenN msg <? o1 + 2 + 2) eqn:E2; [discriminate|]. cbn [bind fst snd] in Ha.
+  destruct (lenN msg <? o1 + 2 + 2 + 4) eqn:E3; [discriminate|]. cbn [bind fst snd] in Ha.
+  destruct (lenN msg <? o1 + 2 + 2 + 4 + 2) eqn:E4; [discriminate|]. cbn [bind fst snd] in Ha.
+  set (T := take_at msg o1 2) in *. set (C := take_at msg (o1 + 2) 2) in *.
+  set (TT := take_at msg (o1 + 2 + 2) 4) in *. set (RL := take_at msg (o1 + 2 + 2 + 4) 2) in *.
+  set (rdl := be RL 0) in *.
+  destruct (lenN msg <? o1 + 2 + 2 + 4 + 2 + rdl) eqn:E5; [discriminate|].
+  injection Ha as <- <- <-.
+  assert (HT : wfb T /\ lenN T = 2) by (split; [apply wfb_take_at, Hw|apply lenN_take_at; lia]).
+  assert (HC : wfb C /\ lenN C = 2) by (split; [apply wfb_take_at, Hw|apply lenN_take_at; lia]).
+  assert (HTT : wfb TT /\ lenN TT = 4) by (split; [apply wfb_take_at, Hw|apply lenN_take_at; lia]).
+  assert (HRL : wfb RL /\ lenN RL = 2) by (split; [apply wfb_take_at, Hw|apply lenN_take_at; lia]).
+  assert (Hrdl16 : rdl < 65536).
+  { unfold rdl. pose proof (be_bound RL (proj1 HRL)) as Hb. rewrite (proj2 HRL) in Hb. exact Hb. }
+  set (off1 := o1 + 2 + 2 + 4 + 2) in *.
+  set (tmsg := takeN (off1 + rdl) msg) in *.
+  assert (Htl : lenN tmsg = off1 + rdl) by (apply lenN_takeN'; lia).
+  unfold unpack_rr_with_header in H. cbn [h_type h_name h_class h_ttl h_rdlength] in H.
+  rewrite Htl in H.
+  replace (off1 + rdl <? off1) with false in H by lia.
+  replace (off1 + rdl <? off1 + rdl) with false in H by lia.
+  destruct (rdl =? 0) eqn:Er0.
+  { injection H as <- <-. cbn [rr_rdlength] in Hrdl. lia. }
+  destruct (find_layout layouts (kind_of_type (be T 0))) as [L'|] eqn:EL; [|discriminate].
+  inv_bind H. destruct a as [gotF e]. cbn [fst snd] in H.
+  destruct (e =? off1 + rdl) eqn:Ee; [|discriminate]. injection H as <- <-.
+  cbn [rr_kind rr_data rr_rdlength] in *. rewrite EL in Hfind. injection Hfind as ->.
+  assert (Ee' : e = off1 + rdl) by lia. subst e.
+  split; [lia|].
+  assert (Hsides : sides_agree (tl_pack L) (tl_unpack L) = true).
+  { pose proof pack_unpack_sides_agree as Hx. rewrite forallb_forall in Hx. apply Hx. eapply find_layout_in; eauto. }
+  (* the packer *)
+  unfold pack_rr. cbn [rr_kind rr_data rr_name rr_type rr_class rr_ttl]. rewrite EL.
+  unfold pack_header. cbn [rr_name rr_type rr_class rr_ttl]. rewrite poff_st0, Ho.
+  bfalse (off =? cap).
+  rewrite (pack_name_at (show_name ls) ls);
+    [|apply is_fqdn_show_name, Hls|apply parse_show_name, Hls|apply valid_wire_len_ok, Hls|lia].
+  cbn [bind]. rewrite !u16_be, u32_be by tauto.
+  rewrite pack_fixed_room by (rewrite lenN_app; lia). cbn [bind].
+  rewrite pack_fixed_room by (rewrite !lenN_app; lia). cbn [bind].
+  rewrite pack_fixed_room by (rewrite !lenN_app; lia). cbn [bind].
+  rewrite pack_fixed_room by (rewrite !lenN_app; cbn [u16 lenN length N.of_nat]; lia). cbn [bind].
+  set (P := (((out ++ wire_name ls) ++ T) ++ C) ++ TT).
+  assert (HP : lenN P = off1 - 2). { unfold P. rewrite !lenN_app. lia. }
+  assert (Hplain' : plain_fields (tl_pack L) (tl_unpack L) [] tmsg off1).
+  { unfold tmsg. replace (off1 + rdl) with (off1 + rdl) by lia.
+    replace off1 with (off + lenN (wire_name ls) + 10) at 2 by lia. exact Hplain. }
+  destruct (fields_converse cap (tl_pack L) (tl_unpack L) [] [] tmsg off1 gotF (off1 + rdl) (P ++ u16 0))
+    as [_ [_ Hpf]]; try assumption; try lia.
+  { apply wfb_takeN, Hw. }
+  { reflexivity. }
+  { rewrite lenN_app, HP. cbn [u16 lenN length N.of_nat]. lia. }
+  rewrite Hpf. cbn [bind].
+  set (RD := take_at tmsg off1 (off1 + rdl - off1)).
+  assert (HRD : lenN RD = rdl). { unfold RD. rewrite lenN_take_at by lia. lia. }
+  unfold poff. cbn [st0 pn_out pn_cm].
+  replace (lenN ((P ++ u16 0) ++ RD) - lenN (P ++ u16 0)) with rdl by (rewrite !lenN_app; lia).
+  replace (lenN (P ++ u16 0)) with (lenN P + 2) by (rewrite lenN_app; reflexivity).
+  bfalse (65535 <? rdl). bfalse (lenN P + 2 <? 2).
+  f_equal. unfold st0. f_equal.
+  replace (N.to_nat (lenN P + 2 - 2)) with (length P) by (unfold lenN; lia).
+  replace (N.to_nat (lenN P + 2 - 1)) with (length (P ++ [rdl / 256]))
+    by (rewrite app_length; unfold lenN; cbn [length]; lia).
+  change (u16 0) with [0; 0]. rewrite <- app_assoc. cbn [app]. rewrite set_at_exact.
+  replace (P ++ rdl / 256 :: 0 :: RD) with ((P ++ [rdl / 256]) ++ 0 :: RD)
+    by (rewrite <- app_assoc; reflexivity).
+  rewrite set_at_exact. rewrite <- app_assoc. cbn [app].
+  change (rdl / 256 :: rdl mod 256 :: RD) with ([rdl / 256; rdl mod 256] ++ RD).
+  rewrite (u16_small rdl) by lia. unfold rdl at 1. rewrite u16_be by tauto.
+  unfold P. rewrite <- !app_assoc. f_equal.
+  (* the octets msg[off:off'] *)
+  assert (ERD : RD = take_at msg off1 rdl).
+  { unfold RD, tmsg. replace (off1 + rdl - off1) with rdl by lia. apply take_at_takeN. lia. }
+  rewrite ERD, <- Ewire. unfold T, C, TT, RL.
+  replace (off1 + rdl - off) with (lenN (wire_name ls) + (2 + (2 + (4 + (2 + rdl))))) by lia.
+  rewrite take_at_split by lia. f_equal. fold o1.
+  rewrite take_at_split by lia. f_equal.
+  rewrite take_at_split by lia. f_equal.
+  rewrite take_at_split by lia. f_equal.
+  rewrite take_at_split by lia. f_equal.
+Qed.
+
+(* coverage of the converse theorem *)
+Definition layout_conv_supported (L : tlayout) : bool := conv_layout_ok [] (tl_pack L).
+Lemma converse_census :
+  map tl_name (filter layout_conv_supported layouts) =
+  ["A"; "AAAA"; "AFSDB"; "ANY"; "AVC"; "CAA"; "CDNSKEY"; "CDS"; "CERT"; "CNAME"; "DHCID"; "DLV";
+   "DNAME"; "DNSKEY"; "DS"; "EID"; "EUI48"; "EUI64"; "GID"; "GPOS"; "HINFO"; "ISDN"; "KEY"; "KX";
+   "L32"; "L64"; "LOC"; "LP"; "MB"; "MD"; "MF"; "MG"; "MINFO"; "MR"; "MX"; "NAPTR"; "NID"; "NIMLOC";
+   "NINFO"; "NS"; "NSAPPTR"; "NSEC3PARAM"; "NULL"; "NXNAME"; "OPENPGPKEY"; "PTR"; "PX"; "RESINFO";
+   "RFC3597"; "RKEY"; "RP"; "RRSIG"; "RT"; "SIG"; "SMIMEA"; "SOA"; "SPF"; "SRV"; "SSHFP"; "TA";
+   "TALINK"; "TKEY"; "TLSA"; "TSIG"; "TXT"; "UID"; "UINFO"; "URI"; "X25"; "ZONEMD"]%string.
+Proof. vm_compute. reflexivity. Qed.
+Lemma converse_uncovered_census :
+  map tl_name (filter (fun L => negb (layout_conv_supported L)) layouts) =
+  ["AMTRELAY"; "APL"; "CSYNC"; "HIP"; "HTTPS"; "IPSECKEY"; "NSEC"; "NSEC3"; "NXT"; "OPT"; "SVCB"]%string.
+Proof. vm_compute. reflexivity. Qed.
+
+(* non-vacuity of the converse: the octets of the MX example, between other octets *)
+Definition ex_mx_wire : bytes :=
+  [7; 7; 7] ++ rr_wire ex_owner ex_mx [0; 10; 2; 109; 120; 2; 92; 46; 0] ++ [9; 9].
+Example mx_converse_hypotheses_hold :
+  exists r L,
+    wfb ex_mx_wire /\ unpack_rr ex_mx_wire 3 = Ok (r, 30) /\
+    find_layout layouts (rr_kind r) = Some L /\ conv_layout_ok [] (tl_pack L) = true /\
+    rr_rdlength r <> 0 /\ valid_wire ex_owner = true /\
+    take_at ex_mx_wire 3 (lenN (wire_name ex_owner)) = wire_name ex_owner /\
+    plain_fields (tl_pack L) (tl_unpack L) [] (takeN 30 ex_mx_wire) (3 + lenN (wire_name ex_owner) + 10) /\
+    Forall (fun fk : pfield => vget (rr_data r) (fst fk) <> None) (tl_pack L) /\
+    pack_rr r 400 false (st0 [7; 7; 7]) = Ok (st0 (takeN 30 ex_mx_wire)).
+Proof.
+  eexists. eexists. split. { unfold wfb. vm_compute. repeat constructor. }
+  split; [vm_compute; reflexivity|]. split; [vm_compute; reflexivity|]. split; [vm_compute; reflexivity|].
+  split; [cbn; lia|]. split; [reflexivity|]. split; [vm_compute; reflexivity|].
+  split.
+  { vm_compute. split; [exact I|]. split; [|exact I]. exists [[109; 120]; [92; 46]]. split; reflexivity. }
+  split; [repeat constructor; cbn; discriminate|]. vm_compute. reflexivity.
 Qed.
